@@ -356,10 +356,11 @@ func (c *Check) matcherShape(mr *ssa.Function) {
 			}
 		}
 	}
-	c.Ob("R2", "matcher iterates the all-of and the any-of auditor lists", mr.Pos(), hdr["AllOf"] != nil && hdr["AnyOf"] != nil, "")
 	if hdr["AllOf"] == nil || hdr["AnyOf"] == nil {
+		c.Info("R2", "matcher: loop structure not recognised, all-of / any-of shape not decided", mr.Pos(), "MatchRequirements does not contain the loops over SignedBy.AllOf and SignedBy.AnyOf itself (moved into helpers or rewritten)")
 		return
 	}
+	c.Ob("R2", "matcher iterates the all-of and the any-of auditor lists", mr.Pos(), true, "")
 	lenFact := func(f []Atom, k string, op string) bool {
 		for _, a := range f {
 			if a.Op == op && Sym(a.X) == "builtin.len(p:g.Requirements.SignedBy."+k+")" && Sym(a.Y) == "0" {
@@ -470,10 +471,14 @@ func (c *Check) subsetShape() {
 			}
 		}
 	}
-	c.Ob("R2", "attribute subset: iterates the required list and, inside it, the offered list", fn.Pos(), outer != nil && inner != nil && outer != inner && outer.Dominates(inner), "loops over a (required) and b (offered) not found nested")
-	if outer == nil || inner == nil || outer == inner {
+	if outer == nil || inner == nil || outer == inner || !outer.Dominates(inner) {
+		// the function is written in a form this rule does not model (explicit-break loops, helpers, ...): its
+		// quantifier shape is then NOT decided — reported as information, never as a violation (DESIGN.md section 3)
+		c.Info("R2", "attribute subset: loop structure not recognised, quantifier shape not decided", fn.Pos(), "AttributesSubsetOf is not written as a loop over the required list containing a loop over the offered list (range / index form)")
+		c.elementRelation()
 		return
 	}
+	c.Ob("R2", "attribute subset: iterates the required list and, inside it, the offered list", fn.Pos(), true, "")
 	// no state is carried from one required attribute to the next: the only loop-carried values are the indices
 	carried := ""
 	for _, h := range []*ssa.BasicBlock{outer} {
@@ -593,6 +598,18 @@ func (c *Check) subsetShape() {
 	}
 	c.Ob("R2", "attribute subset: next required attribute only after required[i].SubsetOf(offered[j]) held", fn.Pos(), okCont && nback > 0, "the scan advances to the next required attribute without a match of the current one against an offered one")
 
+	c.elementRelation()
+}
+
+// onChainMin: s is field f of the minimum bid deposit read from the market module's on-chain parameters (not a
+// compile-time default, which governance cannot change).
+func onChainMin(s, f string) bool {
+	return strings.HasSuffix(s, "BidMinDeposit."+f) && strings.Contains(s, "GetParams(")
+}
+
+// elementRelation: Attribute.SubsetOf answers true only for equal key and equal value.
+func (c *Check) elementRelation() {
+	l := c.L
 	// element relation: same key and same value
 	ef := l.Func("types", "Attribute", "SubsetOf")
 	c.Analysed(fnName(ef))
@@ -631,10 +648,4 @@ func (c *Check) subsetShape() {
 		}
 	}
 	c.Ob("R2", "attribute match: positive only for equal key and equal value", ef.Pos(), okEl && nt > 0, "Attribute.SubsetOf answers true without key and value both being equal")
-}
-
-// onChainMin: s is field f of the minimum bid deposit read from the market module's on-chain parameters (not a
-// compile-time default, which governance cannot change).
-func onChainMin(s, f string) bool {
-	return strings.HasSuffix(s, "BidMinDeposit."+f) && strings.Contains(s, "GetParams(")
 }
